@@ -98,3 +98,154 @@ Proof.
   intros Hal Hv. rewrite !mcf1_algo_eq_spec by (try assumption; try (apply aligned_cat; exact Hal); intros E; try apply targets_in_cat; apply Hv, E).
   apply prf_textbook_dup; [apply f1_dup|exact Hal].
 Qed.
+
+(* binary forms: duplication *)
+Lemma bin_pairs_spec_dup t b : bin_ok b -> bin_pairs_spec t (bin_cat b b) = bin_pairs_spec t b ++ bin_pairs_spec t b.
+Proof. intros O. rewrite <- !bin_pairs_eq. apply bin_pairs_cat. exact O. Qed.
+Theorem binacc_duplication t b : bin_ok b -> fn_of binacc_spec t (bin_cat b b) = fn_of binacc_spec t b.
+Proof.
+  intros O. rewrite !binacc_algo_eq_spec by (try apply bin_ok_cat; exact O). unfold binacc_textbook. rewrite (bin_pairs_spec_dup t b O).
+  f_equal. unfold tn. rewrite tp_dup, cnt_app, lenZ_app, <- (ratioN_dup (tp 1 _ + _) (lenZ _)). f_equal; lia.
+Qed.
+Theorem binprec_duplication t b : bin_ok b -> fn_of binprec_spec t (bin_cat b b) = fn_of binprec_spec t b.
+Proof.
+  intros O. rewrite !binprec_algo_eq_spec by (try apply bin_ok_cat; exact O). unfold binprec_textbook. rewrite (bin_pairs_spec_dup t b O), precision_dup. reflexivity.
+Qed.
+Theorem binrec_duplication t b : bin_ok b -> fn_of binrec_spec t (bin_cat b b) = fn_of binrec_spec t b.
+Proof.
+  intros O. rewrite !binrec_algo_eq_spec by (try apply bin_ok_cat; exact O). unfold binrec_textbook. rewrite (bin_pairs_spec_dup t b O), recall_dup. reflexivity.
+Qed.
+Theorem binf1_duplication t b : bin_ok b -> fn_of binf1_spec t (bin_cat b b) = fn_of binf1_spec t b.
+Proof.
+  intros O. rewrite !binf1_algo_eq_spec by (try apply bin_ok_cat; exact O). unfold binf1_textbook. rewrite (bin_pairs_spec_dup t b O), f1_dup. reflexivity.
+Qed.
+(* confusion matrices with a normalisation *)
+Lemma cm_textbook_dup n nm ps : nm <> NNone -> cm_textbook_ps n nm (ps ++ ps) = cm_textbook_ps n nm ps.
+Proof.
+  intros Hn. unfold cm_textbook_ps. f_equal. apply map_ext. intros i. apply map_ext. intros j. unfold cm_cell.
+  destruct nm; [congruence| | |]; rewrite !cnt_app, ?lenZ_app; [apply ratioN_dup|apply ratio0_dup|apply ratio0_dup].
+Qed.
+Theorem mccm_duplication n nm b : nm <> NNone -> cm_ok (n, nm) b -> fn_of mccm_spec (n, nm) (mc_cat b b) = fn_of mccm_spec (n, nm) b.
+Proof.
+  intros Hn O. rewrite !mccm_algo_eq_spec by (try apply cm_ok_cat; exact O). unfold mccm_textbook. cbn [fst snd].
+  rewrite <- !pairs_eq, pairs_cat; [apply cm_textbook_dup; exact Hn|].
+  unfold cm_ok, cm_valid in O. do 3 (apply andb_prop in O as [O _]). apply (shape_aligned _ _ O).
+Qed.
+Theorem bincm_duplication t nm b : nm <> NNone -> bin_ok b -> fn_of bincm_spec (t, nm) (bin_cat b b) = fn_of bincm_spec (t, nm) b.
+Proof.
+  intros Hn O. rewrite !bincm_algo_eq_spec by (try apply bin_ok_cat; exact O). unfold bincm_textbook. cbn [fst snd].
+  rewrite (bin_pairs_spec_dup t b O). apply cm_textbook_dup. exact Hn.
+Qed.
+
+(* ------------------------------------------------------------------------------------------ *)
+(* relabelling the classes by a permutation                                                    *)
+(* ------------------------------------------------------------------------------------------ *)
+(* pi permutes the class indices 0..n-1: injective, and maps the range into itself *)
+Definition perm_on (n : nat) (pi : Z -> Z) : Prop :=
+  (forall a b, pi a = pi b -> a = b) /\ (forall c, inrange n c = true -> inrange n (pi c) = true).
+Definition relabel (pi : Z -> Z) (ps : list (Z * Z)) : list (Z * Z) := map (fun py => (pi (fst py), pi (snd py))) ps.
+
+Section Relabel.
+Variable n : nat.
+Variable pi : Z -> Z.
+Hypothesis Hpi : perm_on n pi.
+Lemma eqb_pi a b : (pi a =? pi b) = (a =? b).
+Proof. destruct Hpi as [Hi _]. destruct (Z.eqb_spec a b) as [->|E]; [apply Z.eqb_refl|]. destruct (Z.eqb_spec (pi a) (pi b)) as [E'|]; [apply Hi in E'; contradiction|reflexivity]. Qed.
+Lemma tp_relabel c ps : tp (pi c) (relabel pi ps) = tp c ps.
+Proof. unfold tp, relabel. rewrite cnt_map. apply cnt_ext. intros [p y]. cbn [fst snd]. rewrite !eqb_pi. reflexivity. Qed.
+Lemma fp_relabel c ps : fp (pi c) (relabel pi ps) = fp c ps.
+Proof. unfold fp, relabel. rewrite cnt_map. apply cnt_ext. intros [p y]. cbn [fst snd]. rewrite !eqb_pi. reflexivity. Qed.
+Lemma fn_relabel c ps : fn (pi c) (relabel pi ps) = fn c ps.
+Proof. unfold fn, relabel. rewrite cnt_map. apply cnt_ext. intros [p y]. cbn [fst snd]. rewrite !eqb_pi. reflexivity. Qed.
+Lemma cell_relabel i j ps : cm_cell (relabel pi ps) (pi i) (pi j) = cm_cell ps i j.
+Proof. unfold cm_cell, relabel. rewrite cnt_map. apply cnt_ext. intros [p y]. cbn [fst snd]. rewrite !eqb_pi. reflexivity. Qed.
+Lemma correct_relabel ps : n_correct (relabel pi ps) = n_correct ps.
+Proof. unfold n_correct, relabel. rewrite cnt_map. apply cnt_ext. intros [p y]. cbn [fst snd]. apply eqb_pi. Qed.
+Lemma len_relabel ps : lenZ (relabel pi ps) = lenZ ps. Proof. apply lenZ_map. Qed.
+Lemma precision_relabel ps c : precision_c (relabel pi ps) (pi c) = precision_c ps c.
+Proof. unfold precision_c. rewrite tp_relabel, fp_relabel. reflexivity. Qed.
+Lemma recall_relabel ps c : recall_c (relabel pi ps) (pi c) = recall_c ps c.
+Proof. unfold recall_c. rewrite tp_relabel, fn_relabel. reflexivity. Qed.
+Lemma f1_relabel ps c : f1_c (relabel pi ps) (pi c) = f1_c ps c.
+Proof. unfold f1_c. rewrite tp_relabel, fp_relabel, fn_relabel. reflexivity. Qed.
+Lemma present_relabel ps c : present (relabel pi ps) (pi c) = present ps c.
+Proof. unfold present. rewrite tp_relabel, fp_relabel, fn_relabel. reflexivity. Qed.
+Lemma support_relabel ps c : support (relabel pi ps) (pi c) = support ps c.
+Proof. unfold support. rewrite tp_relabel, fn_relabel. reflexivity. Qed.
+
+(* pi permutes the list of classes *)
+Lemma in_classes c : In c (classes n) <-> inrange n c = true.
+Proof.
+  unfold classes, inrange. rewrite in_map_iff. split.
+  - intros [k [<- Hk]]. apply in_seq in Hk. apply andb_true_intro. split; [apply Z.leb_le|apply Z.ltb_lt]; lia.
+  - intros H. apply andb_prop in H as [H1 H2]. apply Z.leb_le in H1. apply Z.ltb_lt in H2. exists (Z.to_nat c). split; [lia|apply in_seq; lia].
+Qed.
+Lemma classes_nodup : NoDup (classes n).
+Proof. unfold classes. apply FinFun.Injective_map_NoDup; [intros a b H; lia|apply seq_NoDup]. Qed.
+Lemma classes_perm : Permutation (map pi (classes n)) (classes n).
+Proof.
+  destruct Hpi as [Hi Hr]. apply NoDup_Permutation_bis.
+  - apply FinFun.Injective_map_NoDup; [exact Hi|apply classes_nodup].
+  - rewrite map_length. apply Nat.le_refl.
+  - intros c Hc. apply in_map_iff in Hc as [k [<- Hk]]. apply in_classes, Hr, in_classes, Hk.
+Qed.
+End Relabel.
+
+Lemma perm_filter {X} (P : X -> bool) l l' : Permutation l l' -> Permutation (filter P l) (filter P l').
+Proof.
+  induction 1 as [|x0 l0 l0' _ IH|x0 y0 l0|l1 l2 l3 _ IH1 _ IH2]; cbn [filter].
+  - constructor.
+  - destruct (P x0); [constructor|]; exact IH.
+  - destruct (P x0), (P y0); try apply Permutation_refl; apply perm_swap.
+  - eapply Permutation_trans; eassumption.
+Qed.
+Lemma xadd_comm a b : xadd a b = xadd b a.
+Proof. destruct a, b; cbn; try reflexivity. f_equal. ring. Qed.
+Lemma xadd_assoc a b c : xadd (xadd a b) c = xadd a (xadd b c).
+Proof. destruct a, b, c; cbn; try reflexivity. f_equal. ring. Qed.
+Lemma xsum_perm l l' : Permutation l l' -> xsum l = xsum l'.
+Proof.
+  intros H. unfold xsum. generalize (Fin 0). induction H as [|x0 l0 l0' _ IH|x0 y0 l0|l1 l2 l3 _ IH1 _ IH2]; intros a; cbn [fold_left].
+  - reflexivity.
+  - apply IH.
+  - rewrite !xadd_assoc, (xadd_comm y0 x0). reflexivity.
+  - rewrite IH1. apply IH2.
+Qed.
+Lemma xmean_perm l l' : Permutation l l' -> xmean l = xmean l'.
+Proof. intros H. unfold xmean. rewrite (xsum_perm l l' H), (Permutation_length H). reflexivity. Qed.
+
+(* an average over the present classes is invariant when a class-indexed function and the presence
+   predicate are transported along pi *)
+Lemma avg_relabel n pi (Hpi : perm_on n pi) (agg : list xq -> xq) (Hagg : forall l l', Permutation l l' -> agg l = agg l')
+  (g g' : Z -> xq) (P P' : Z -> bool) :
+  (forall c, g' (pi c) = g c) -> (forall c, P' (pi c) = P c) ->
+  agg (map g' (filter P' (classes n))) = agg (map g (filter P (classes n))).
+Proof.
+  intros Hg HP. rewrite (Hagg _ (map g' (filter P' (map pi (classes n))))).
+  - rewrite filter_map, map_map. rewrite (filter_ext _ P) by exact HP. f_equal. apply map_ext. exact Hg.
+  - apply Permutation_map, perm_filter, Permutation_sym, (classes_perm n pi Hpi).
+Qed.
+
+(* the textbook precision / recall / F1 under relabelling: micro / macro / weighted unchanged;
+   per-class results are permuted (value at class pi c after = value at class c before) *)
+Definition res_at (r : res) (c : Z) : xq := match r with RV l => nth (Z.to_nat c) l NaN | _ => NaN end.
+Definition is_avg (a : avg) : Prop := a <> NoAvg.
+
+Lemma prf_textbook_relabel n pi (m : list (Z * Z) -> Z -> xq) a b b' :
+  perm_on n pi -> (forall ps c, m (relabel pi ps) (pi c) = m ps c) ->
+  pairs_spec b' = relabel pi (pairs_spec b) ->
+  (a <> NoAvg -> prf_spec_of m micro_spec (a, Some n) b' = prf_spec_of m micro_spec (a, Some n) b) /\
+  (a = NoAvg -> forall c, inrange n c = true ->
+     res_at (prf_spec_of m micro_spec (a, Some n) b') (pi c) = res_at (prf_spec_of m micro_spec (a, Some n) b) c).
+Proof.
+  intros Hpi Hm Hps. unfold prf_spec_of. cbn [fst snd ncls]. rewrite Hps. set (ps := pairs_spec b). split.
+  - intros Ha. destruct a; [| | |congruence]; f_equal.
+    + unfold micro_spec. rewrite (correct_relabel n pi Hpi), len_relabel. reflexivity.
+    + unfold macro_of. apply (avg_relabel n pi Hpi xmean xmean_perm); [apply Hm|apply (present_relabel n pi Hpi)].
+    + unfold weighted_of. apply (avg_relabel n pi Hpi xsum xsum_perm); [|apply (present_relabel n pi Hpi)].
+      intros c. rewrite Hm, (support_relabel n pi Hpi), len_relabel. reflexivity.
+  - intros -> c Hc. cbn [res_at]. destruct Hpi as [Hi Hr]. pose proof (Hr c Hc) as Hc'.
+    unfold inrange in Hc, Hc'. apply andb_prop in Hc as [H1 H2]. apply andb_prop in Hc' as [H1' H2'].
+    apply Z.leb_le in H1, H1'. apply Z.ltb_lt in H2, H2'.
+    rewrite !nth_classes by lia. rewrite !Z2Nat.id by lia. apply Hm.
+Qed.
